@@ -22,6 +22,7 @@ MANIFEST = {
     'note': 'Trusted: the wrappers see exactly what the callee receives (functools.wraps closures on module attributes; fork start method asserted). Location padding is kept at odd reflection (other np.pad modes cannot reach below 0, an input-validity matter).',
     'technique': 'offline trace-specification checker over per-process event logs written by recording wrappers on the real stage functions (incl. forked workers)',
 }
+SESSION_NOISE = True      # every shard starts after unrelated session activity (harness.session_noise)
 BUDGET_S = {'quick': 75, 'thorough': 480}
 RULE = ('grid variant x imf option set (4, one with an energy threshold) x interpolation (2) x extrema option set (3) x delivery route (keyword dicts, '
         '**SiftConfig, get_func partial) x nprocesses (1,2,3) x 3 signals; quick = seeded sample of the grid with every '
